@@ -112,6 +112,11 @@ class Tree:
         fs.write("pkgs/%s/__init__.py" % self.pkg, "", 1)
         for r in ("root", "root2"):
             fs.symlink("lnk_" + r, r, True)
+            # outside/up_<r> -> ../<r>/zanchor : the path 'outside/up_<r>/..' IS the search directory
+            # (the parent of the link's target), while its textual normalisation is 'outside'
+            # (zanchor is never touched by the tree mutations)
+            fs.mkdir(r + "/zanchor")
+            fs.symlink("outside/up_" + r, "../%s/zanchor" % r, True)
         for rel, target, is_dir in BASE_LINKS:
             if rel in sc["absent"]:
                 continue
@@ -140,7 +145,8 @@ class Tree:
         if kind in ("file_to_link", "dir_to_link"):
             remove()
             fs.symlink(m["path"], m["target"], kind == "dir_to_link")
-        elif kind == "write":          # create, or replace whatever is there by a regular file
+        elif kind in ("write", "to_plain_file"):   # create, or replace whatever is there (a file, a link, a whole
+            # directory: ENOTDIR for everything below it) by a regular file
             remove()
             tok = "IN:m%d" % self.nmut
             fs.write(m["path"], tok, tick)
@@ -150,6 +156,9 @@ class Tree:
             self.versions[rp] = [tok]
         elif kind == "delete":
             remove()
+        elif kind == "to_loop":            # replaced by a link to itself: ELOOP
+            remove()
+            os.symlink(os.path.basename(p), p)
         return "%s %s" % (kind, m["path"])
 
     # -- the model ----------------------------------------------------------------
@@ -299,7 +308,7 @@ class C22:
         sc = {
             "config": config, "loader": loader, "pkg": pkg, "absent": absent,
             "roots": ["root", "root2"] if two else ["root"],
-            "root_shape": rng.weighted([("abs", 6), ("relative", 2), ("via_link", 2), ("cwd", 2)]),
+            "root_shape": rng.weighted([("abs", 6), ("relative", 2), ("via_link", 2), ("cwd", 2), ("link_dotdot", 1.5)]),
             "cwd_form": rng.choice([".", "", "./"]),
             "compose": rng.weighted([(None, 7), ("choice", 2), ("factory", 1)]),
             "pkg_paths": rng.choice([["templates"], ["templates", "more"], "templates"]),
@@ -392,7 +401,13 @@ class C22:
 
     def _gen_mutation(self, rng, sc):
         ext = sc["ext"] or ""
-        k = rng.randrange(9)
+        k = rng.randrange(12)
+        if k == 9:
+            return ({"kind": "to_plain_file", "path": "root/sub"}, ["sub/c.liquid", "sub/c", "sub/noext"])
+        if k == 10:
+            return ({"kind": "to_loop", "path": "root/a.liquid"}, ["a.liquid", "a"])
+        if k == 11:
+            return ({"kind": "to_loop", "path": "root/sub"}, ["sub/c.liquid", "sub/c"])
         if k == 0:
             return ({"kind": "file_to_link", "path": "root/a.liquid", "target": "../outside/secret.txt"},
                     ["a.liquid", "a"])
@@ -531,6 +546,8 @@ class C22:
             given = list(sc["roots"])            # relative to the current directory (the sandbox, see run())
         elif shape == "via_link":
             given = [tree.fs.path("lnk_" + r) for r in sc["roots"]]   # a symlink to the search directory
+        elif shape == "link_dotdot":
+            given = [tree.fs.path("outside/up_%s/.." % r) for r in sc["roots"]]
         elif shape == "cwd":
             # the search directory IS the current directory, given as '.', '' or './' (a path
             # without components: the first component of base/name is then the name's own)
